@@ -70,6 +70,12 @@ func (f *Fosite) NewPushedAuthorizeRequest(ctx context.Context, r *http.Request)
 		return fr, err
 	}
 
+	// The pushed request must belong to the client that authenticated: a "client_id" parameter naming
+	// another client must not make the request (and its request_uri) that client's.
+	if fr.GetClient().GetID() != client.GetID() {
+		return fr, errorsx.WithStack(ErrInvalidRequest.WithHint("The 'client_id' must match the authenticated OAuth 2.0 Client."))
+	}
+
 	if fr.GetRequestedScopes().Has("openid") && r.Form.Get("redirect_uri") == "" {
 		return fr, errorsx.WithStack(ErrInvalidRequest.WithHint("Query parameter 'redirect_uri' is required when performing an OpenID Connect flow."))
 	}
